@@ -23,59 +23,65 @@ def rule_roundup(ctx, P):
     # ---------------- R08d
     r = ctx.rule('R08d', 'round-up expressions equal ceil(len / a) * a on a grid covering every residue class; a = k * (w/8)',
                  'an off-by-one in the rounding changes payload sizes exactly at multiples of the alignment')
-    grid_a = [1, 2, 3, 4, 5, 6, 7, 8, 10, 12, 16, 20, 24, 40, 64, 100, 128]
-    for fname, lenarg in (('get_aligned_data_size', 1), ('liberasurecode_get_aligned_data_size', 1)):
+    # the two functions are evaluated as value functions (constant propagation through their IR, no library code runs) on a grid
+    # of instance shapes and lengths: k in 1..12, w in {8,16,32}, every residue class of len modulo the alignment plus large
+    # values.  Expected: the smallest multiple of a that is >= len, a = k * (w/8) (k * w * sizeof(long) * 128 for Jerasure Cauchy
+    # in the internal helper).  Independent of how the rounding is written.
+    from ..consteval import ConstEval, Undecidable
+    I_ARGS, I_COMMON, I_DESC = P.field_index('ec_backend', 'args'), P.field_index('ec_backend', 'common'), P.field_index('ec_backend', 'desc')
+    I_UARGS = P.field_index('ec_backend_args', 'uargs')
+    I_K, I_W = P.field_index('ec_args', 'k'), P.field_index('ec_args', 'w')
+    I_ID = P.field_index('ec_backend_common', 'id')
+    ids = {}
+    for m_ in P.mods:
+        ids.update(m_.enumerators('EC_BACKEND_'))
+    cauchy = ids.get('EC_BACKEND_JERASURE_RS_CAUCHY')
+    plain = [v for n_, v in sorted(ids.items()) if v != cauchy and n_ not in ('EC_BACKENDS_MAX',)][:3]
+    if cauchy is None or not plain:
+        raise AnalysisBroken('anchor vanished: backend id enumerators')
+    def instance(k, w, bid):
+        return {'inst': {(I_ARGS, I_UARGS, I_K): k, (I_ARGS, I_UARGS, I_W): w, (I_COMMON, I_ID): bid}}
+    def lens(a):
+        return list(range(0, 4 * a + 3)) + [1000000, 1 << 20, (1 << 20) + 1]
+    for fname in ('get_aligned_data_size', 'liberasurecode_get_aligned_data_size'):
         f = P.fn(fname)
-        C = Canon(P, f)
-        rets = [i for i in f.insts() if i.op == 'ret']
-        # opaque alignment operand: the divisor of the division(s) on the way
-        divs = [i for i in f.insts() if i.op in ('sdiv', 'udiv', 'srem', 'urem') and const_int(f, i.ops[1]) is None]
-        if not divs:
-            r.fail(f'{fname}: round-up', func=f.name, sig='no division by the alignment', loc=f.mod.src, msg='no rounding to a multiple of the alignment is performed')
+        CE = ConstEval(P, f.mod)
+        public = fname.startswith('liberasurecode_')
+        bad, nev = None, 0
+        try:
+            for bid in plain + ([] if public else [cauchy]):
+                for k in (1, 2, 3, 4, 5, 7, 10, 12):
+                    for w in (8, 16, 32):
+                        a = k * w * 8 * 128 if bid == cauchy else k * (w // 8)
+                        for ln in (lens(a) if a <= 64 else [0, 1, a - 1, a, a + 1, 3 * a - 1, 3 * a, 1 << 20]):
+                            nev += 1
+                            def hook(ins, args, w=w):
+                                if ins.callee == '@liberasurecode_backend_instance_get_by_desc':
+                                    return ('obj', 'inst', ())
+                                return w                       # ops->element_size(desc): the word size in bits
+                            res = CE.run(f, [7 if public else ('obj', 'inst', ()), ln], objs=instance(k, w, bid), call_hook=hook)
+                            want = -(-ln // a) * a
+                            if res['ret'] != want:
+                                bad = f'k={k}, w={w}, len={ln}' + (' (Jerasure Cauchy)' if bid == cauchy else '') + \
+                                      f': returns {res["ret"]}, the smallest multiple of {a} that is >= len is {want}'
+                                break
+                            if any(e[0] == 'div0' for e in res['events']):
+                                bad = f'k={k}, w={w}, len={ln}: division by zero'
+                                break
+                        if bad: break
+                    if bad: break
+                if bad: break
+        except Undecidable as e:
+            r.undecided(f'{fname}: aligned(len) == ceil(len/a)*a', loc=f.mod.src, msg=str(e))
             continue
-        aval = strip_int_casts(f, divs[-1].ops[1])
-        ok_a, why = shared.divisor_ok(P, f, aval)
-        t = symex.tree(f, rets[0].ops[0], opaque={aval})
-        alts = [x for x in symex.alternatives(t) if x[0] not in ('c',)]
-        if not alts:
-            r.undecided(f'{fname}: round-up', msg='return value has no arithmetic alternative')
-            continue
-        inst = f'{fname}: aligned(len) == ceil(len/a)*a'
-        bad = None
-        nev = 0
-        for alt in alts:
-            lv = symex.leaves(alt)
-            unk = [l for l in lv if l not in (('p', lenarg), ('v', aval))]
-            if unk:
-                bad = ('undecided', f'expression has other inputs: {unk}')
-                break
-            for a in grid_a:
-                for ln in list(range(0, 4 * a + 3)) + [1000000, 1 << 20, (1 << 20) + 1]:
-                    nev += 1
-                    try:
-                        got = symex.evaluate(alt, {('p', lenarg): ln, ('v', aval): a})
-                    except ZeroDivisionError:
-                        bad = ('fail', f'division by zero for len={ln}, a={a}'); break
-                    want = -(-ln // a) * a
-                    if got != want:
-                        bad = ('fail', f'len={ln}, alignment={a}: expression gives {got}, smallest multiple >= len is {want}'); break
-                if bad:
-                    break
-            if bad:
-                break
         ctx.extra.setdefault('R08d_grid_points', 0)
         ctx.extra['R08d_grid_points'] += nev
-        if bad and bad[0] == 'undecided':
-            r.undecided(inst, loc=rets[0].loc, msg=bad[1])
-        elif bad:
-            r.fail(inst, func=f.name, sig='round-up wrong: ' + bad[1][:60], loc=divs[-1].loc, msg='the rounding expression is not the round-up to a multiple: ' + bad[1])
+        inst = f'{fname}: aligned(len) == ceil(len/a)*a, a = k * (w/8)'
+        if bad:
+            r.fail(inst, func=f.name, sig='round-up wrong: ' + bad[:60], loc=f.mod.src, msg='the aligned size is not the round-up of the length to a multiple of k * word size: ' + bad)
         else:
-            r.ok(inst + f' ({nev} grid points)', func=f.name, loc=divs[-1].loc, facts={'alignment_operand': C.val(aval)})
-        if ok_a:
-            r.ok(f'{fname}: alignment operand is {why}', func=f.name, loc=divs[-1].loc)
-        else:
-            r.fail(f'{fname}: alignment operand', func=f.name, sig=f'alignment is {why}', loc=divs[-1].loc, msg=f'the alignment is {C.val(aval)}, not k * (word size in bytes)')
-    r.require_min(4)
+            r.ok(inst + f' ({nev} grid points over k, w, len)', func=f.name, loc=f.mod.src)
+    r.require_min(2)
 
 def run(ctx):
     P = ctx.program()
